@@ -231,7 +231,15 @@ def gen(rng, size='small', focus=None):
             # a shared group of 1-2 devices used through 2 paths
             in_group_done = True
             members = []
-            first = dict(kind=rng.choice(['processor', 'handler']), cycle=cyc(), up=[])
+            gate_first = rng.random() < 0.3
+            if gate_first:
+                # a decision gate in front of the shared machine, judging by quality; the machine re-measures the quality of what it
+                # finishes, so on a re-entrant route the same gate sees the same part again in a different state
+                g0 = add(dict(kind='gate', decider=rng.choice([[2, 8], [3, 8], [2, 4]]), up=[]))
+                members.append(g0)
+            first = dict(kind=rng.choice(['processor', 'handler']), cycle=cyc(), up=[g0] if gate_first else [])
+            if gate_first and first['kind'] == 'processor':
+                first['on_finish'] = [['part_set_quality', rng.choice([0, 4, 8, 16])]]
             m1 = add(first)
             members.append(m1)
             if first['kind'] == 'processor':
@@ -337,7 +345,7 @@ def gen(rng, size='small', focus=None):
                 buffers.append(i)
         prev = cur
         stages.append(list(cur))
-    if in_group_done and rng.random() < 0.35:
+    if in_group_done and rng.random() < (0.7 if any(e['kind'] == 'gate' and e.get('up') == [] for e in ents) else 0.35):
         # re-entrant use: the line goes through the shared group a second time, through one more path
         p = add(dict(kind='path', gid=1, up=list(prev)))
         blockable.append(p)
@@ -415,12 +423,20 @@ def gen(rng, size='small', focus=None):
             ext.append(['at', t, new_script([['add_res', rng.choice([0, 1]), 8 * rng.choice([1, 1, -1, 2])]]), prio])
         else:
             ext.append(['at', t, new_script([['adjust', rng.choice(sources), rng.choice([-2, 1, 2, 3])]]), prio])
-    if use_resources and rng.random() < 0.3:
+    if use_resources and rng.random() < 0.45:
         # a pool's capacity taken down to exactly zero (possibly while a machine holds some of it) and raised again later
         n, cap = rng.choice(pools)
         t1 = rng.choice([4, 8, 12, 16, 24, 32])
         ext.append(['at', t1, new_script([['add_res', n, -cap]]), rng.choice([32, 184])])
         ext.append(['at', t1 + rng.choice([4, 8, 16, 24]), new_script([['add_res', n, rng.choice([8, 8, 16, cap or 8])]]), rng.choice([32, 184])])
+    if maints and len(processors) >= 2 and rng.random() < 0.4:
+        # two (or three) work orders in progress at once that finish in another order than they started
+        m = rng.choice(maints)
+        t = rng.choice([8, 12, 16, 24])
+        a, b = rng.sample(processors, 2)
+        ext.append(['at', t, new_script([['create_wo', m, a, -1]]), 184])
+        ext.append(['at', t + rng.choice([0, 2, 4]), new_script([['create_wo', m, b, 0]]), 184])
+        ext.append(['at', t + rng.choice([6, 10, 14]), new_script([['create_wo', m, a, 0]]), 184])
     if cyclers and rng.random() < 0.12:
         # a one-shot offset requested during set-up, before the simulation is initialised: it applies to the first cycle
         ext.insert(0, ['now', ['offset', rng.choice(cyclers + sources), rng.choice([-8, -4, 4, 8, 12, 24])]])
